@@ -530,13 +530,17 @@ impl Cluster {
         }
     }
     pub async fn shutdown(self) {
+        self.shutdown_within(Duration::from_secs(3600)).await
+    }
+    /// Stop every node, waiting at most `each` for each stop call (real-time runs: a node that hangs must not hold up the run).
+    pub async fn shutdown_within(self, each: Duration) {
         for r in &self.reals {
             // silence everything so that stop() does not wait for Leave round trips
             self.hub.set_silent(&r.id, true);
         }
         for r in self.reals {
-            let _ = tokio::time::timeout(Duration::from_secs(3600), r.mgr.stop()).await;
-            let _ = tokio::time::timeout(Duration::from_secs(3600), r.transport.stop()).await;
+            let _ = tokio::time::timeout(each, r.mgr.stop()).await;
+            let _ = tokio::time::timeout(each, r.transport.stop()).await;
         }
     }
 }
